@@ -458,6 +458,21 @@ class Exec:
             return [p if p.exit is not None else p.fork(val=("repeat", p.val)) for p in self.eval(n["x"], st)]
         if k == "struct":
             names = [a for a, _ in n["fs"]]
+            if n.get("base") is not None:
+                # `S { f: e, ..base }`: the written fields, then the base; every other field of S is the base's
+                path_ = n["path"][5:] if str(n["path"]).startswith("Self:") else n["path"]
+                adt_ = self.c.adts.get(path_)
+                if adt_ is None or not adt_.get("variants"):
+                    raise Unestablished("E6: struct update of an unknown type %s" % n["path"])
+                all_f = [f_["name"] for f_ in adt_["variants"][0]["fields"]]
+                out_ = []
+                for (p, vs) in self.evals([b for _, b in n["fs"]] + [n["base"]], st):
+                    if p.exit is not None:
+                        out_.append(p)
+                        continue
+                    given = dict(zip(names, vs[:-1]))
+                    out_.append(p.fork(val=("struct", n["path"], tuple((f_, given[f_] if f_ in given else mk_field(vs[-1], f_)) for f_ in all_f))))
+                return out_
             return [p if p.exit is not None else p.fork(val=("struct", n["path"], tuple(zip(names, vs)))) for (p, vs) in self.evals([b for _, b in n["fs"]], st)]
         if k == "bin":
             if n["op"] in ("And", "Or"):
